@@ -33,6 +33,7 @@ import Kust.PathSplit
 import Kust.NsFilter
 import Kust.Select
 import Kust.CrdConfig
+import Kust.KioRead
 import Kust.Gen.Lists
 import Kust.Gen.FieldSpecs
 import Kust.Gen.Lists
@@ -360,6 +361,23 @@ def runKio (op : String) (a : Json) : Except String Json := do
     let stream := Kio.emit bodies
     return Json.mkObj [("ok", Json.mkObj [("stream", Json.str (String.ofList stream)),
       ("docs", Json.num (Kio.docsOf (Kio.pieces stream)).length)])]
+  | "read" =>
+    let docOf (j : Json) : KioRead.Doc :=
+      let t := (j.getObjValD "t").getStr?.toOption.getD ""
+      if t = "blank" then KioRead.Doc.blank
+      else if t = "null" then KioRead.Doc.null
+      else
+        let it := j.getObjValD "items"
+        KioRead.Doc.res ((j.getObjValD "kind").getStr?.toOption.getD "") (if it.isNull then none else some (it.getNat?.toOption.getD 0))
+          ((j.getObjValD "fc").getBool?.toOption.getD false)
+    let docs : List KioRead.Doc := match (a.getObjValD "docs").getArr? with
+      | .ok l => l.toList.map docOf
+      | _ => []
+    let out := KioRead.read ((a.getObjValD "disable").getBool?.toOption.getD false) docs
+    let nodeJ (n : KioRead.Node) : Json := match n with
+      | .doc d i => Json.arr #[Json.str "doc", Json.num d, Json.num i]
+      | .item d j => Json.arr #[Json.str "item", Json.num d, Json.num j]
+    return Json.mkObj [("ok", Json.arr (out.map nodeJ).toArray)]
   | _ => throw s!"unknown kio op {op}"
 
 /-! ### fix -/
